@@ -28,6 +28,7 @@ type c04cfg struct {
 	quorum int
 	a      int
 	getter string // "search" or "get"
+	instant bool  // responders answer the moment they are asked: several answers are processed in one step
 }
 
 var c04RecKinds = []string{"none", "s1", "s2", "s3", "bad", "miskeyed", "empty", "nil"}
@@ -62,6 +63,11 @@ func c04Configs(tier string) []vmc.Cfg {
 						}
 						c := c04cfg{recs: recs, local: local, quorum: q, a: a, getter: g}
 						out = append(out, vmc.Cfg{Name: fmt.Sprintf("%s/a%d/q%d/local-%s/%s", g, a, q, local, strings.Join(recs, ",")), Data: c})
+						if a == 3 && (local == "none" || local == "s1" || tier == "thorough") {
+							ci := c
+							ci.instant = true
+							out = append(out, vmc.Cfg{Name: fmt.Sprintf("%s/a%d/q%d/local-%s/%s/instant", g, a, q, local, strings.Join(recs, ",")), Data: ci})
+						}
 					}
 				}
 			}
@@ -116,6 +122,7 @@ func c04Run(x *vmc.X, cfg vmc.Cfg) {
 	}
 	defer l.close()
 	l.seed(ids)
+	l.net.Instant = c.instant
 	localSeq := -1
 	switch c.local {
 	case "s1", "s3":
